@@ -184,6 +184,18 @@ def check_base58(ctx, o=lambda k: "C07.%d" % k):
                 if isinstance(it, T) and it.op == "m:translate" and tm.veq(rules.unfz(it.args[0]), strip1) and it.args[2] == b"" and _digit_table(it.args[1], amap):
                     translated.append(True)
                     return True
+        if isinstance(n0, T) and n0.op == "fold" and len(n0.args) == 5:
+            it_ = rules.unfz(n0.args[3])
+            if isinstance(it_, T) and it_.op == "map" and it_.args[2] is None:
+                # a fold over mapped elements (reduce(step, (digit(c) for c in s), 0)) is the fold over the elements with the
+                # mapping applied inside the step
+                f_, d_ = rules.unfz(it_.args[0]), n0.args[4]
+                ks_ = {t_.args[0] for t_ in tm.subterms(f_) if isinstance(t_, T) and t_.op == "bv"}
+                if len(ks_) <= 1:
+                    k_ = next(iter(ks_)) if ks_ else d_
+                    f2_ = tm.subst(f_, lambda t_: tm.bv(d_, tm.INT) if isinstance(t_, T) and t_.op == "bv" and t_.args[0] == k_ else None)
+                    step_ = tm.subst(rules.unfz(n0.args[1]), lambda t_: f2_ if isinstance(t_, T) and t_.op == "bv" and t_.args[0] == d_ else None)
+                    n0 = T("fold", (n0.args[0], tm._fz(step_), n0.args[2], it_.args[1], d_), n0.ty)
         if isinstance(n0, T) and n0.op == "fold" and n0.args[2] == 0 and tm.veq(rules.unfz(n0.args[3]), strip1):
             var, step, d = n0.args[0], rules.unfz(n0.args[1]), n0.args[4]
             a_ = T("acc", (var, d), tm.INT)
